@@ -601,3 +601,44 @@ def histories(spec, cfg, tier, seed):
     r.detail = f"bounded: EXHAUSTIVE over all {len(ops)}^{L} = {nseq} histories of update(batch 0..{len(pool) - 1})/compute/reset of length {L} (all shorter ones as prefixes) + {nrand} random histories of length 20..200, compute() after every step vs. a reference counter and forward() on the concatenation; cross-check of the L-fold induction, never counted as proved"
     r.wall_s = round(time.time() - t0, 2)
     return [r]
+
+
+# ================================================================================================ soft inputs on the decision threshold
+@obligation("C16.streaming_equals_oneshot_on_threshold_ties", function="kaira/metrics/signal/ber.py:BitErrorRate.update; kaira/metrics/signal/ber.py:BitErrorRate.forward; kaira/metrics/signal/bler.py:BlockErrorRate.update; kaira/metrics/signal/bler.py:BlockErrorRate.forward",
+            configs=lambda tier: [Cfg("ties", m, t) for m in ("ber", "bler") for t in ("default", "0.0", "0.25")], kind="ground", engine="ground")
+def streaming_equals_oneshot_ties(cfg):
+    """the accumulated value equals the one-shot value on the concatenated data ALSO for real-valued (soft) inputs that sit exactly
+    on the decision threshold: the streaming path and the one-shot path must take the same hard decision.  Closed and exhaustive: all
+    pairs of words over {0, 1/4, 1/2, 1} of length 3 (4096 pairs), three thresholds, whole and split updates."""
+    import itertools
+
+    from kaira.metrics.signal.ber import BitErrorRate
+    from kaira.metrics.signal.bler import BlockErrorRate
+
+    _, which, t = cfg
+    kw = {} if t == "default" else {"threshold": float(t)}
+    mk = (lambda: BitErrorRate(**kw)) if which == "ber" else (lambda: BlockErrorRate(block_size=3, **kw))
+    vals = (0.0, 0.25, 0.5, 1.0)
+    words = [torch.tensor([w]) for w in itertools.product(vals, repeat=3)]
+    bad = []
+    n = 0
+    for x in words:
+        for y in words:
+            n += 1
+            one = float(mk()(x, y))
+            m = mk()
+            m.update(x, y)
+            whole = float(m.compute())
+            m2 = mk()
+            # the same data as two updates of two identical rows vs one shot on the stacked rows
+            x2, y2 = torch.cat([x, x]), torch.cat([y, y])
+            m2.update(x, y)
+            m2.update(x, y)
+            split, one2 = float(m2.compute()), float(mk()(x2, y2))
+            if not (one == whole and one2 == split and one == one2):
+                bad.append(f"x={x.tolist()} y={y.tolist()}: one-shot {one}, update+compute {whole}; two rows one-shot {one2}, two updates {split}")
+                if len(bad) > 3:
+                    break
+        if len(bad) > 3:
+            break
+    yield "accumulated_equals_one_shot", not bad, "; ".join(bad[:2]) or f"{n} pairs of words over {{0, 1/4, 1/2, 1}}^3, threshold {t}"
